@@ -27,6 +27,7 @@ import (
 	erc20types "github.com/functionx/fx-core/v8/x/erc20/types"
 
 	bx "fxverif/harness/bridgex"
+	"fxverif/harness/evmx"
 )
 
 var (
@@ -187,7 +188,7 @@ func (r *run) mixed(nTx int) {
 		r.out.Stats.Extra["mixed:setup"] = err.Error()
 		return
 	}
-	eth.SetLastObservedBlockHeight(ctx, 1000, uint64(ctx.BlockHeight()))
+	eth.SetLastObservedBlockHeight(ctx, 1000, 1) // fx height 1: the real blocks of block_test.go run at the true (small) height
 	// tokens arrive over the bridge for user 0, who converts them into ERC-20 held by the mixer contract
 	if err := r.atomic(func(c sdk.Context) error {
 		return eth.SendToFxExecuted(c, &crosschaintypes.MsgSendToFxClaim{EventNonce: 1, BlockHeight: 1, TokenContract: tokenContract, Amount: si(1_000_000),
@@ -331,6 +332,7 @@ func (r *run) mixed(nTx int) {
 	if claimDirty {
 		fixed = append(fixed, []string{"t5", "e15"}, []string{"rm", "e10", "t2"})
 	}
+	deliverable := os.Getenv("VERIF_C08_BLOCKS") != "0" && r.probeDelivery()
 	for i := 0; i < nTx; i++ {
 		if !refill() {
 			return
@@ -496,16 +498,47 @@ func (r *run) mixed(nTx int) {
 		}
 		pre = r.mixState(token)
 		preSum, preEsc := r.mixBooks(token, g)
-		err := r.atomic(func(c sdk.Context) error {
-			res, err := r.w.S.App.EvmKeeper.CallEVM(c, r.users[0].Address(), &mixerAddr, big.NewInt(0), 40_000_000, nil, true)
-			if err != nil {
-				return err
+		var err error
+		if odd := os.Getenv("VERIF_C08_BLOCKS") != "0" && i%2 == 1; odd && deliverable {
+			// a signed MsgEthereumTx in a real block (ante handler, FinalizeBlock, Commit): block_test.go
+			err = r.deliver(mixerAddr, 25_000_000)
+			r.out.Count("mixed:path:signed MsgEthereumTx through FinalizeBlock")
+			if err != nil && !strings.HasPrefix(err.Error(), "vm: ") {
+				r.out.Stats.Extra["mixed:block:first-non-vm-error"] = strings.Join(steps, " ") + " => " + err.Error()
+				r.out.Count("mixed:path:FinalizeBlock:rejected-or-harness-error")
 			}
-			if res.Failed() {
-				return fmt.Errorf("vm: %s", res.VmError)
-			}
-			return nil
-		})
+		} else if odd {
+			// the outermost layer a MsgEthereumTx reaches in this snapshot (see probeDelivery): a SIGNED transaction handed to
+			// the EVM message server (EthereumTx -> ApplyTransaction: transaction-level StateDB with the tx hash / index,
+			// the gas limit of the transaction, post-tx hooks, gas refund, logs) on a transaction-like branch
+			r.out.Count("mixed:path:signed MsgEthereumTx through the EVM message server (ApplyTransaction)")
+			err = r.atomic(func(c sdk.Context) error {
+				tx, err := evmx.SignedTx(c, r.w.S.App, r.users[0], mixerAddr, nil, nil, 25_000_000, []common.Address{crosschaintypes.GetAddress(), token})
+				if err != nil {
+					return fmt.Errorf("harness: %w", err)
+				}
+				res, err := evmx.Send(c, r.w.S.App, tx)
+				if err != nil {
+					return err
+				}
+				if res.Failed() {
+					return fmt.Errorf("vm: %s", res.VmError)
+				}
+				return nil
+			})
+		} else {
+			r.out.Count("mixed:path:EvmKeeper.CallEVM on a cache context")
+			err = r.atomic(func(c sdk.Context) error {
+				res, err := r.w.S.App.EvmKeeper.CallEVM(c, r.users[0].Address(), &mixerAddr, big.NewInt(0), 40_000_000, nil, true)
+				if err != nil {
+					return err
+				}
+				if res.Failed() {
+					return fmt.Errorf("vm: %s", res.VmError)
+				}
+				return nil
+			})
+		}
 		post := r.mixState(token)
 		res := "ok"
 		if err != nil {
